@@ -214,6 +214,39 @@ func c18Exec(r *vf.Run, k c18Case) []finding {
 		}
 		return out
 	}
+	if k.Kind == "parthdr" {
+		// a message without multipart: the part's / the file's own header lines stand in the message header. BShape 0 = one
+		// body part with a description of BLen characters, 1 = nothing but one attachment whose name (with blanks) has BLen
+		// characters and that carries a description; N = 1: rendered through WriteToSkipMiddleware instead of WriteTo
+		words := repeatTo("quarterly figures and other words ", k.BLen)
+		sp := mb.Msg{Parts: []mb.Part{{Type: "text/plain", Content: []byte("body\r\n"), Desc: words}}}
+		if k.BShape == 1 {
+			sp = mb.Msg{Attach: []mb.File{{Name: strings.TrimSpace(words) + ".txt", Content: c18Bin(30), Desc: words}}}
+		}
+		m, err := mb.Build(sp, nil)
+		if err != nil {
+			r.HarnessError("C18 build: %v", err)
+			return nil
+		}
+		var buf bytes.Buffer
+		pan, pw := vf.Guard(func() {
+			if k.N == 1 {
+				_, err = m.WriteToSkipMiddleware(&buf, "verif-no-such-middleware")
+			} else {
+				_, err = m.WriteTo(&buf)
+			}
+		})
+		if pan {
+			return []finding{{"panic/" + vf.PanicSite(pw), firstLine(pw)}}
+		}
+		if err != nil {
+			return []finding{{"render-error", err.Error()}}
+		}
+		e := mimeread.Parse(buf.Bytes())
+		via := []string{"WriteTo", "WriteToSkipMiddleware"}[k.N]
+		c18CheckEntity(e, func(key, f string, a ...interface{}) { add(key+"/top-level-part-header/via="+via, f, a...) }, "message")
+		return out
+	}
 	if k.Kind == "boundary" {
 		sp := mb.Msg{Boundary: repeatTo("boundary-0123456789-ABCDEFGHIJKLMNOPQRSTUVWXYZ-", k.BLen), Parts: []mb.Part{{Type: "text/plain", Content: []byte("body\r\n")}}}
 		if k.BShape == 0 || k.BShape == 3 {
@@ -440,6 +473,14 @@ func c18Cases(thorough bool) []c18Case {
 			cs = append(cs, c18Case{Kind: "boundary", BLen: bl, BShape: sh})
 		}
 	}
+	// part / file header lines at the top level (messages without multipart), through both render entry points
+	for bl := 20; bl <= 140; bl++ {
+		for sh := 0; sh < 2; sh++ {
+			for via := 0; via < 2; via++ {
+				cs = append(cs, c18Case{Kind: "parthdr", BLen: bl, BShape: sh, N: via})
+			}
+		}
+	}
 	// bodies: every length, uniform chunk sizes, all cut sets up to 2 (thorough 3) cuts
 	for _, b64 := range []bool{false, true} {
 		maxN := 200
@@ -515,7 +556,7 @@ func init() {
 	vf.Register(&vf.Check{
 		ID: "C18", Title: "generated output obeys Internet-message line discipline",
 		Run: func(r *vf.Run) {
-			r.SetRule("(a) header folding: generic headers with names of 2/12/33 characters and Subject, values of 2 words with every length pair 0..80 and 3 words over 27 lengths up to 300, with double/leading/trailing blanks, TAB, to-be-encoded words; To lists of 1..6 long addresses; one header set with 1..60 separate values of 1..12 characters each, To lists of 1..60 short addresses; multipart messages (4 shapes) with a caller-fixed boundary of every length 1..70 (go-mail's own Content-Type lines); (b) QP text bodies and base64 attachments of every length 0..200, 1000 and 4096, whose producers split their output at every set of <=2 (thorough <=3) cut positions, in uniform chunks of every size, and in all 2^(n-1) splittings of 13 nine-byte blocks; an independent line scanner checks CRLF-only, body lines <=76, header lines <=78 unless unbreakable, unfolded value = value set, decoded body = content; distinct by case tuple")
+			r.SetRule("(a) header folding: generic headers with names of 2/12/33 characters and Subject, values of 2 words with every length pair 0..80 and 3 words over 27 lengths up to 300, with double/leading/trailing blanks, TAB, to-be-encoded words; To lists of 1..6 long addresses; one header set with 1..60 separate values of 1..12 characters each, To lists of 1..60 short addresses; multipart messages (4 shapes) with a caller-fixed boundary of every length 1..70 (go-mail's own Content-Type lines); messages without multipart whose part / file headers (description, file name of 20..140 characters) stand in the message header, through WriteTo and WriteToSkipMiddleware; (b) QP text bodies and base64 attachments of every length 0..200, 1000 and 4096, whose producers split their output at every set of <=2 (thorough <=3) cut positions, in uniform chunks of every size, and in all 2^(n-1) splittings of 13 nine-byte blocks; an independent line scanner checks CRLF-only, body lines <=76, header lines <=78 unless unbreakable, unfolded value = value set, decoded body = content; distinct by case tuple")
 			r.Assume("trailing blanks of a header value are not significant", "a header line may exceed 78 characters only if the part after the field name / folding blank contains no blank")
 			cases := c18Cases(r.Thorough)
 			r.Extra("cases", len(cases))
